@@ -1,6 +1,7 @@
 SPECIFICATION ConfSpec
 CONSTANTS
   WorkerCpus = 0
+  LateWorkers = 0
   WorkerGroup = 0
   WorkerLife = 0
   MaxTicks = 0
